@@ -894,7 +894,7 @@ func (g *Gen) execSlice(x *ssa.Slice) {
 		g.oblige("bounds", "", and(sx("<=", "0", lo), sx("<=", lo, hi), sx("<=", hi, mx), sx("<=", mx, sx("sl-cap", base.T))), g.pos(x), "slice bounds in range")
 		g.assume(and(sx("<=", "0", lo), sx("<=", lo, hi), sx("<=", hi, mx), sx("<=", mx, sx("sl-cap", base.T))))
 		// slicing a nil slice yields nil (base 0, cap 0)
-		g.define(x, sx("mk-slice", sx("sl-base", base.T), sx("+", sx("sl-off", base.T), lo), sx("-", hi, lo), sx("-", mx, lo)))
+		g.define(x, sx("mk-slice", sx("sl-base", base.T), sx("ix", sx("sl-off", base.T), lo), sx("-", hi, lo), sx("-", mx, lo)))
 	case *types.Pointer:
 		at := t.Elem().Underlying().(*types.Array)
 		if g.localRefs[base.T] != "" {
@@ -1034,12 +1034,15 @@ func (g *Gen) execTypeAssert(x *ssa.TypeAssert) {
 		g.assert(eq(okc, ok))
 		vc := g.freshConst("ta", g.st.sortOf(x.AssertedType))
 		g.assert(eq(vc, ite(okc, val, g.st.zero(x.AssertedType))))
-		g.vals[x] = &Val{Ty: x.Type(), Tuple: []*Val{{T: vc, Ty: x.AssertedType}, {T: okc, Ty: types.Typ[types.Bool]}}}
+		tv := &Val{T: vc, Ty: x.AssertedType}
+		g.assumeTypeInv(tv, g.ghostTerm(g.cur, "$brk"))
+		g.vals[x] = &Val{Ty: x.Type(), Tuple: []*Val{tv, {T: okc, Ty: types.Typ[types.Bool]}}}
 		return
 	}
 	g.oblige("assert", "", ok, g.pos(x), "type assertion holds")
 	g.assume(ok)
-	g.define(x, val)
+	nv := g.define(x, val)
+	g.assumeTypeInv(nv, g.ghostTerm(g.cur, "$brk"))
 }
 
 type mapCompNames struct {
